@@ -5,6 +5,6 @@ cd /repo || exit 2
 if ! git apply --3way /verif/refactors/$id/patch.diff >/tmp/tryrefac.log 2>&1; then echo "[$id] APPLY FAILED: $(tail -1 /tmp/tryrefac.log)"; git reset -q --hard HEAD; git clean -fdq; exit 3; fi
 if ! go build ./... >/tmp/tryrefac.build 2>&1; then echo "[$id] BUILD FAILED"; head -3 /tmp/tryrefac.build; git reset -q --hard HEAD; git clean -fdq; exit 3; fi
 out=$(cd /verif && ./check all quick 2>&1); rc=$?
-echo "$out" | grep -v "^KNOWN-FINDING" | grep -v "violated=0" | grep -v "^    " | cut -c1-260
+echo "$out" | grep -v "^KNOWN-FINDING" | grep -v "violated=0" | grep -v "^    " | cut -c1-260 | head -14
 echo "[$id] exit=$rc"
 git reset -q --hard HEAD; git clean -fdq
